@@ -30,7 +30,8 @@ LEVEL_TEXT = ("Emitters are enumerated by introspection of the package; each is 
               "characters; seeded deep JSON) and ids (ints incl. 0, negatives, 2^63..2^64-1; strings incl. empty and digit "
               "strings). The stdlib-decoded emitted form must be valid JSON-RPC 2.0 and parse_message of it must give the "
               "same kind with type-strictly equal id, method, params, result and error. Wire forms are captured at the stdio "
-              "child's stdin and at the HTTP/SSE POST bodies.")
+              "child's stdin and at the HTTP/SSE POST bodies."
+              ' Also envelope classes instantiated directly (relying on declared defaults) through every wire form.')
 LEVEL_NOTE = ("Trusted: vf/ref.py validator; emitters that could not be driven are listed in evidence. id:null is tolerated "
               "only on the batch-rejection error (request id undeterminable).")
 RULE = ("case = (emitter, payload, id). Non-trivial: payload or id is not the trivial default; distinct = hash(emitter, "
